@@ -66,7 +66,9 @@ func VerifC05_TriggeringPhase() {
 	}
 	zz.Cover("C05.phase.returned")
 	zz.Assert("C05.phase.trigger_invoked_once", c05TriggerCalls == 1)
-	zz.Assert("C05.phase.deadline_is_min_duration_minus_guard", zz.GhostLen("ctx.timeout") == 1 &&
+	// the FIRST timeout context run creates is the trigger context (a run may create further ones, e.g. to bound
+	// the completion wait: their number is not part of the property)
+	zz.Assert("C05.phase.deadline_is_min_duration_minus_guard", zz.GhostLen("ctx.timeout") >= 1 &&
 		zz.GhostInt("ctx.timeout", 0, 0) == int(want-int64(10*time.Millisecond)))
 	zz.Assert("C05.phase.trigger_context_cancelled_on_return", seenCtx != nil && seenCtx.Err() != nil)
 	zz.Assert("C05.phase.test_duration_recorded", r.result.TestDuration >= 0)
@@ -156,3 +158,61 @@ func VerifC05_RateModeBoundedWaitAfterLimit() {
 	close(release)
 	cancel()
 }
+
+// VerifC06_NoTeardownWhileAnIterationRuns: "setup cleanups run after every started iteration has finished (or the
+// completion timeout expired), whatever ended the run" at the level of Run.run (Run.Do tears the scenario down when
+// run returns): the real rate-mode trigger and trigger pool with one worker and one requested iteration that ends at
+// an ARBITRARY moment (released by a helper goroutine), a completion timeout beyond the modelled horizon (it cannot
+// expire: 2 h against a run shorter than 1 h), ARBITRARY max-duration, caller cancellation at any moment: whenever
+// run returns, the started iteration has ended before - whatever ended the triggering (deadline, cancellation,
+// completion). Also registered under C05 ("if it returns without that timeout expiring, every started iteration
+// has finished").
+//
+//verif:conc
+//verif:unroll 2
+//verif:timeout 300
+//verif:horizon 3600000000000
+//verif:replace (*$M/internal/raterun.Runner).Restart c05RestartFn
+//verif:deadlock 1
+func VerifC06_NoTeardownWhileAnIterationRuns() {
+	md := zz.Int64("maxDuration")
+	zz.Assume(md > int64(20*time.Millisecond))
+	zz.Assume(md < int64(30*time.Minute))
+	release := make(chan struct{})
+	sc := &scenarios.Scenario{Name: "scn"}
+	sc.RunFn = func(*f1testing.T) {
+		zz.Event("iteration.begin")
+		<-release
+		zz.Event("iteration.end")
+	}
+	as := workers.NewActiveScenario(sc, &metrics.Metrics{}, &progress.Stats{}, nil, nil)
+	trig := &api.Trigger{Trigger: api.NewIterationWorker(time.Hour, func(time.Time) int { return 1 })}
+	opts := options.RunOptions{Scenario: "scn", MaxDuration: time.Duration(md), Concurrency: 1}
+	vw := &views.Views{}
+	r := &Run{options: opts, trigger: trig, views: vw, result: NewResult(opts, vw, &progress.Stats{}), output: &ui.Output{},
+		activeScenario: as, progressRunner: &raterun.Runner{}, waitForCompletionTimeout: 2 * time.Hour}
+	ctx, cancel := context.WithCancel(context.Background())
+	go func() {
+		if zz.Bool("callerCancels") {
+			cancel()
+		}
+	}()
+	go func() { close(release) }() // the iteration ends at an arbitrary moment
+	r.run(ctx)
+	zz.Event("run.returned")
+	zz.Cover("C06.inflight.run_returned")
+	zz.CoverIf("C06.inflight.iteration_ran", zz.Happened("iteration.begin"))
+	zz.Assert("C06.inflight.no_return_while_a_started_iteration_is_running",
+		!zz.Happened("iteration.begin") || (zz.Happened("iteration.end") && zz.Before("iteration.end", "run.returned", 0, 0)))
+	cancel()
+}
+
+// VerifC05_NoReturnWhileAnIterationRuns: the harness above under C05.
+//
+//verif:conc
+//verif:unroll 2
+//verif:timeout 300
+//verif:horizon 3600000000000
+//verif:replace (*$M/internal/raterun.Runner).Restart c05RestartFn
+//verif:deadlock 1
+func VerifC05_NoReturnWhileAnIterationRuns() { VerifC06_NoTeardownWhileAnIterationRuns() }
